@@ -1,0 +1,7 @@
+//go:build !verif
+
+package app
+
+import "github.com/go-kid/ioc/definition"
+
+func verifCloseYield(m definition.CloserComponent) {}
